@@ -11,7 +11,9 @@
 //   - a simple name that is also declared in the file (type, member, variable, type parameter) or that appears as a
 //     segment of another import / of the package line; fully-qualified uses (`java.util.List x`) of an imported name;
 //   - type names starting with a lower-case letter, non-ASCII identifiers;
-//   - files the directory walk of the tool skips by design (names ending in Test(s).java, src/test/java, .gitignore).
+//   - src/test/java directories and .gitignore patterns. Real test sources by name (*Test.java / *Tests.java, which the
+//     tool's walk skips by design) ARE generated as bystanders: their cleaning is not demanded, everything else is.
+//     Production classes whose name merely ends in lower-case "test"/"tests" (Contest, Latest, Protests) are ordinary files.
 //
 // Generated but marked ambiguous (either outcome is accepted): an import whose simple name occurs ONLY inside a
 // comment / Javadoc `{@link X}` / string literal.
@@ -78,16 +80,19 @@ func (im *Import) RoleClasses() []string {
 }
 
 type File struct {
-	Rel      string   `json:"rel"`
-	Pkg      string   `json:"pkg"`
-	TypeKind string   `json:"type_kind"` // class | abstract-class | interface | enum
-	TypeName string   `json:"type_name"`
-	Profile  string   `json:"profile"` // none | clean | dirty | all-unused
-	Imports  []Import `json:"imports"`
-	CRLF     bool     `json:"crlf"`
-	FinalNL  bool     `json:"final_newline"`
-	Text     string   `json:"text"`
-	shape    string
+	Rel      string `json:"rel"`
+	Pkg      string `json:"pkg"`
+	TypeKind string `json:"type_kind"` // class | abstract-class | interface | enum
+	TypeName string `json:"type_name"`
+	Profile  string `json:"profile"` // none | clean | dirty | all-unused
+	// Bystander: a real test source by name (*Test.java / *Tests.java). The tool's directory walk skips such files by
+	// design, so their cleaning is not demanded; frame, soundness and idempotence still apply to them.
+	Bystander bool     `json:"bystander,omitempty"`
+	Imports   []Import `json:"imports"`
+	CRLF      bool     `json:"crlf"`
+	FinalNL   bool     `json:"final_newline"`
+	Text      string   `json:"text"`
+	shape     string
 }
 
 func (f *File) CountUnused() (n int) {
@@ -177,6 +182,7 @@ var roleInfos = map[string]roleInfo{
 	"annotation-param":       {lvSig, "annotation"},
 	"annotation-local":       {lvStmt, "annotation"},
 	"annotation-nested":      {lvSig, "annotation-qualifier"},
+	"annotation-nested-deep": {lvSig, "annotation-qualifier-deep"}, // @Outer.Mid.Inner, @Outer.A.B.Inner
 	// creation
 	"new":            {lvStmt, "creation"},
 	"new-argument":   {lvStmt, "creation"},
@@ -193,14 +199,16 @@ var roleInfos = map[string]roleInfo{
 	"static-field-receiver":      {lvStmt, "static-field-receiver"},
 	"method-ref":                 {lvStmt, "method-ref-receiver"},
 	// catch / throws
-	"catch":             {lvStmt, "catch"},
-	"catch-final":       {lvStmt, "catch"},
-	"multi-catch-first": {lvStmt, "catch"},
-	"multi-catch-last":  {lvStmt, "catch"},
-	"catch-nested":      {lvStmt, "catch-qualifier"},
-	"throws":            {lvSig, "throws"},
-	"throws-second":     {lvSig, "throws"},
-	"throws-nested":     {lvSig, "throws-qualifier"},
+	"catch":              {lvStmt, "catch"},
+	"catch-final":        {lvStmt, "catch"},
+	"multi-catch-first":  {lvStmt, "catch"},
+	"multi-catch-last":   {lvStmt, "catch"},
+	"catch-nested":       {lvStmt, "catch-qualifier"},
+	"catch-nested-deep":  {lvStmt, "catch-qualifier-deep"},
+	"throws":             {lvSig, "throws"},
+	"throws-second":      {lvSig, "throws"},
+	"throws-nested":      {lvSig, "throws-qualifier"},
+	"throws-nested-deep": {lvSig, "throws-qualifier-deep"},
 	// static method imports: unqualified call
 	"call-statement":   {lvStmt, "static-call"},
 	"call-initializer": {lvStmt, "static-call"},
@@ -248,12 +256,12 @@ var classRoles = []weighted{
 
 var annotationRoles = []weighted{
 	{"annotation-class", 5}, {"annotation-method", 5}, {"annotation-field", 5},
-	{"annotation-class-args", 2}, {"annotation-method-args", 2}, {"annotation-param", 1}, {"annotation-local", 1}, {"annotation-nested", 1},
+	{"annotation-class-args", 2}, {"annotation-method-args", 2}, {"annotation-param", 1}, {"annotation-local", 1}, {"annotation-nested", 2}, {"annotation-nested-deep", 3},
 }
 
 var exceptionRoles = []weighted{
 	{"catch", 7}, {"throws", 7}, {"throw-new", 2}, {"multi-catch-first", 1}, {"multi-catch-last", 1}, {"catch-final", 1},
-	{"throws-second", 1}, {"catch-nested", 1}, {"throws-nested", 1}, {"local-type", 1}, {"param-type", 1},
+	{"throws-second", 1}, {"catch-nested", 2}, {"throws-nested", 2}, {"catch-nested-deep", 3}, {"throws-nested-deep", 3}, {"local-type", 1}, {"param-type", 1},
 }
 
 // the roles an annotation type declaration (elements and constants only) can host
@@ -326,6 +334,11 @@ var ownPkgs = []string{"com.acme.shop", "com.acme.shop.order", "com.acme.shop.bi
 	"polymorphism", "com.acme.shop.order.internal"}
 
 var typePrefixes = []string{"Order", "Customer", "Invoice", "Payment", "User", "Account", "Report", "Stock", "Cart", "Ledger", "Shipment", "Catalog"}
+
+// ordinary production class names whose file name ends in "test.java" / "tests.java" in lower case: they are NOT test
+// sources (only *Test.java / *Tests.java are) and must be cleaned like every other file
+var lowerTestNames = []string{"Contest", "Latest", "Protests", "Backtests", "Greatest", "Attest", "Contests", "Detest", "Backtest"}
+
 var typeSuffixes = []string{"Service", "Repository", "Controller", "Handler", "Manager", "Mapper", "Factory", "Validator", "Config", "Client", "Facade", "Job"}
 
 // names the renderer uses without importing them (java.lang or type parameters): never drawn as import names
@@ -436,7 +449,10 @@ func Generate(r *run.Rand, o Opts) *Project {
 	p := &Project{Layout: r.Pick([]string{"flat", "packages", "packages", "maven"})}
 	nFiles := r.Range(o.MinFiles, o.MaxFiles)
 	// own type names first (import names must differ from them)
-	type slot struct{ pkg, name string }
+	type slot struct {
+		pkg, name string
+		bystander bool
+	}
 	var slots []slot
 	basePkgs := []string{}
 	for _, i := range r.Perm(len(ownPkgs))[:r.Range(1, 3)] {
@@ -447,11 +463,22 @@ func Generate(r *run.Rand, o Opts) *Project {
 		if r.Chance(1, 6) {
 			name = r.Pick(typePrefixes)
 		}
+		bystander := false
+		switch x := r.Intn(100); {
+		case x < 8:
+			name = r.Pick(lowerTestNames)
+		case x < 12:
+			name = r.Pick(typePrefixes) + r.Pick(lowerTestNames)
+		case x < 17 && nFiles >= 2 && len(slots) > 0:
+			// a real test source by name, next to the production classes
+			name = r.Pick(typePrefixes) + r.Pick(typeSuffixes) + r.Pick([]string{"Test", "Tests", "Test", "IT" + "Test"})
+			bystander = true
+		}
 		if g.used[name] {
 			continue
 		}
 		g.used[name] = true
-		slots = append(slots, slot{r.Pick(basePkgs), name})
+		slots = append(slots, slot{r.Pick(basePkgs), name, bystander})
 	}
 	g.buildPools()
 
@@ -477,7 +504,7 @@ func Generate(r *run.Rand, o Opts) *Project {
 		case "maven":
 			rel = "src/main/java/" + strings.ReplaceAll(slots[i].pkg, ".", "/") + "/" + rel
 		}
-		p.Files = append(p.Files, File{Rel: rel, Pkg: slots[i].pkg, TypeName: slots[i].name})
+		p.Files = append(p.Files, File{Rel: rel, Pkg: slots[i].pkg, TypeName: slots[i].name, Bystander: slots[i].bystander})
 	}
 	sort.SliceStable(p.Files, func(a, b int) bool { return walkLess(p.Files[a].Rel, p.Files[b].Rel) })
 	if nFiles >= 3 && r.Chance(1, 2) {
@@ -778,6 +805,15 @@ func (fg *fileGen) pickMethod(ok func(m *method) bool) *method {
 	return m
 }
 
+// deepTail is ".Mid1.Inner2" or ".Mid1.Sub2.Inner3": the rest of a three- or four-segment nested name.
+func (fg *fileGen) deepTail(last string) string {
+	t := "." + fg.id(fg.r.Pick([]string{"Mid", "Codes", "Client"}))
+	if fg.r.Chance(1, 3) {
+		t += "." + fg.id(fg.r.Pick([]string{"Sub", "Kind"}))
+	}
+	return t + "." + fg.id(last)
+}
+
 func (fg *fileGen) stmt(lines ...string) {
 	m := fg.pickMethod(nil)
 	m.body = append(m.body, lines...)
@@ -877,6 +913,9 @@ func (fg *fileGen) plant() {
 			case "annotation-nested":
 				m := fg.pickMethod(nil)
 				m.annots = append(m.annots, "@"+N+"."+fg.id("Inner")+r.Pick([]string{"", "(\"x\")"}))
+			case "annotation-nested-deep":
+				m := fg.pickMethod(nil)
+				m.annots = append(m.annots, "@"+N+fg.deepTail("Inner")+r.Pick([]string{"", "(\"x\")", "(name = \"n\")"}))
 			case "const-annotation-value":
 				m := fg.pickMethod(nil)
 				m.annots = append(m.annots, r.Pick([]string{"@SuppressWarnings(" + N + ")", "@SuppressWarnings(value = " + N + ")"}))
@@ -896,6 +935,9 @@ func (fg *fileGen) plant() {
 			case "throws-nested":
 				m := fg.pickMethod(nil)
 				m.throws = append(m.throws, N+"."+fg.id("NotFound"))
+			case "throws-nested-deep":
+				m := fg.pickMethod(nil)
+				m.throws = append(m.throws, N+fg.deepTail("NotFound"))
 
 			case "local-type":
 				fg.stmt(r.Pick([]string{"", "", "final "}) + N + " " + v + r.Pick([]string{" = null;", ";", " = null;"}))
@@ -939,7 +981,7 @@ func (fg *fileGen) plant() {
 				fg.stmt("Object " + v + " = " + N + "." + strings.ToUpper(fg.id("limit")) + ";")
 			case "method-ref":
 				fg.stmt("Runnable " + v + " = " + N + "::" + fg.id("run") + ";")
-			case "catch", "catch-final", "multi-catch-first", "multi-catch-last", "catch-nested":
+			case "catch", "catch-final", "multi-catch-first", "multi-catch-last", "catch-nested", "catch-nested-deep":
 				e := fg.id("ex")
 				ct := N
 				switch role {
@@ -951,6 +993,11 @@ func (fg *fileGen) plant() {
 					ct = "IllegalStateException | " + N
 				case "catch-nested":
 					ct = N + "." + fg.id("NotFound")
+				case "catch-nested-deep":
+					ct = N + fg.deepTail("NotFound")
+					if r.Chance(1, 4) {
+						ct = "IllegalStateException | " + ct
+					}
 				}
 				if r.Bool() {
 					fg.stmt("try {", "\t"+fg.id("work")+"();", "} catch ("+ct+" "+e+") {", "\tthrow new IllegalStateException("+e+");", "}")
@@ -1064,6 +1111,12 @@ func (fg *fileGen) render() {
 	var lines []string
 	add := func(s ...string) { lines = append(lines, s...) }
 	shape := []string{f.TypeKind}
+	if f.Bystander {
+		shape = append(shape, "test-by-name")
+	}
+	if low := strings.ToLower(f.TypeName); !f.Bystander && (strings.HasSuffix(low, "test") || strings.HasSuffix(low, "tests")) {
+		shape = append(shape, "name-ends-in-test")
+	}
 
 	// header before the package line
 	switch r.Intn(10) {
@@ -1451,8 +1504,8 @@ func SelfCheck(p *Project) error {
 		if fi > 0 && !walkLess(p.Files[fi-1].Rel, f.Rel) {
 			return fmt.Errorf("files not in walk order")
 		}
-		if strings.HasSuffix(f.Rel, "Test.java") || strings.HasSuffix(f.Rel, "Tests.java") || strings.Contains(f.Rel, "src/test/java/") {
-			return fmt.Errorf("%s would be skipped as a test file", f.Rel)
+		if byName := strings.HasSuffix(f.Rel, "Test.java") || strings.HasSuffix(f.Rel, "Tests.java"); byName != f.Bystander || strings.Contains(f.Rel, "src/test/java/") {
+			return fmt.Errorf("%s: test-source status by name (%v) differs from the planted one (%v)", f.Rel, byName, f.Bystander)
 		}
 		lines := strings.Split(f.Text, "\n")
 		srcSeen := map[string]bool{}
